@@ -1431,7 +1431,13 @@ def run_oracle(ctx, call, case, key=None, nontrivial=True):
         r = ('exception:%s:%s' % (type(e).__name__, variant_tag(case) if 'ext' in case else case.get('shape', '-')),
              repr(e)[:300])
     if r is not None:
-        ctx.fail(call, r[0], case, r[1])
+        # one defect shows under many input classes (element type x noise type x index type x history):
+        # a handful of replay files per kind of failure is enough, the rest is only counted
+        seen = ctx.extra.setdefault('failure_groups', {})
+        grp = call + '/' + r[0].replace('@', ':').split(':')[0]
+        seen[grp] = seen.get(grp, 0) + 1
+        if seen[grp] <= 4:
+            ctx.fail(call, r[0], case, r[1])
         ctx.branch('oracle-fail:' + call)
     else:
         ctx.branch('oracle-ok:' + call)
